@@ -594,7 +594,13 @@ func RenderGFFSeq(r *fw.Rng, a Annotation, withFasta bool, fastaSeq string) stri
 	}
 	if withFasta {
 		sb.WriteString("##FASTA\n>" + a.RefName + "\n")
-		sb.WriteString(WrapSeq(fastaSeq, []int{0, 60, 70}[r.Intn(3)]))
+		wrapW := []int{0, 60, 70}[r.Intn(3)]
+		if len(fastaSeq) > 60000 {
+			// gofasta's GFF3 reader takes lines of at most 64 KiB (longer ones are refused with an
+			// error by variants and sam variants alike): long genomes are embedded wrapped
+			wrapW = []int{60, 70}[r.Intn(2)]
+		}
+		sb.WriteString(WrapSeq(fastaSeq, wrapW))
 	}
 	return sb.String()
 }
